@@ -1581,7 +1581,10 @@ int hwloc_bitmap_compare_first(const struct hwloc_bitmap_s * set1, const struct 
 		}
 	}
 
-	return !!set1->infinite - !!set2->infinite;
+	/* both have no bit set in their words: an infinite one starts right after,
+	 * while a finite one is empty and considered higher.
+	 */
+	return !!set2->infinite - !!set1->infinite;
 }
 
 int hwloc_bitmap_compare(const struct hwloc_bitmap_s * set1, const struct hwloc_bitmap_s * set2)
